@@ -1,16 +1,19 @@
 import SamVerif.Props.C08
 /-! Axiom audit of every C08 property theorem (parsed by vlib/common.py). -/
-open SamVerif.Fmt
-#print axioms roundtrip_expr_counterexample
-#print axioms shortcut_regroups_same_operator
-#print axioms former_witnesses_roundtrip
-#print axioms member_name_before_lt
-#print axioms roundtrip_expr_partial
-#print axioms parseFuel_stable
-#print axioms paren_insensitive
-#print axioms roundtrip_expr_in_context
-#print axioms rt_of_noShortcut
-#print axioms roundtrip_expr_noShortcut
-#print axioms roundtrip_str
-#print axioms roundtrip_int
-#print axioms minus_not_merged
+#print axioms SamVerif.FmtFull.roundtrip_expr_counterexample
+#print axioms SamVerif.FmtFull.shortcut_regroups_same_operator
+#print axioms SamVerif.FmtFull.former_witnesses_roundtrip
+#print axioms SamVerif.FmtFull.member_name_before_lt
+#print axioms SamVerif.FmtFull.roundtrip_expr_total
+#print axioms SamVerif.FmtFull.format_preserves_meaning
+#print axioms SamVerif.FmtFull.eval_regroup
+#print axioms SamVerif.FmtFull.regroup_noShortcut
+#print axioms SamVerif.FmtFull.parseFuel_stable
+#print axioms SamVerif.FmtFull.paren_insensitive
+#print axioms SamVerif.FmtFull.roundtrip_expr_in_context
+#print axioms SamVerif.FmtFull.roundtrip_expr_noShortcut
+#print axioms SamVerif.Fmt.roundtrip_str
+#print axioms SamVerif.Fmt.roundtrip_int
+#print axioms SamVerif.Fmt.minus_not_merged
+#print axioms SamVerif.Fmt.roundtrip_expr_partial
+#print axioms SamVerif.Fmt.paren_insensitive
